@@ -85,9 +85,40 @@ def guard(ctx):
     F = ctx.F
     fam = F.family('core::primitives::full_decaps')
     n = 0
+    guarded_closures = set()
     for body in fam:
         if body.calls(r'primitives::J_hash$'):
-            n += check_fo_guards(ctx, F, body, body.key)
+            k = check_fo_guards(ctx, F, body, body.key)
+            n += k
+            if k and body.kind == 'Closure':
+                guarded_closures.add(body.key)
+    # an opening closure that RETURNS the recovered key (`Ok(Some(ss))` under both guards) instead of recording it: what its
+    # callers record (the key, the right) must sit on the Some edge of its result
+    from .c02 import success_targets
+    for body in fam:
+        if body.calls(r'primitives::J_hash$'):
+            continue
+        calls = [c for c in body.calls(*lib.FN_CALLS) if any(cb.key in guarded_closures for cb in lib.called_closures(F, body, c))]
+        if not calls:
+            continue
+        some_edges = []
+        for b in sorted(body.live_blocks()):
+            t_ = body.term(b)
+            if t_['k'] != 'switch' or not is_place(t_['d']):
+                continue
+            _, d = lib.resolve_copy(body, op_local(t_['d']))
+            if d is None or d.kind != 'assign' or d.rv['k'] != 'discr':
+                continue
+            srcs = copy_chain_sources(body, {'cp': d.rv['pl']}, through_calls=(r'^std::ops::Try::branch$',) + tuple(IDENTITY_CALLS))
+            if srcs and all(s[0] == 'call' and s[1] in calls for s in srcs) and 'Option<' in body.place_ty(d.rv['pl']):
+                for v, tgt in t_['cases']:
+                    if v == 1:
+                        some_edges.append((b, tgt))
+        for (tb, what, payload, ln) in success_targets(F, body):
+            n += 1
+            ctx.check(bool(some_edges) and body.edges_dominate(some_edges, tb), body.key, '%s<=opened' % what,
+                      '%s at line %d is not on the Some edge of the opening closure\'s result: a right is recorded although the '
+                      'tag / trap guards did not pass' % (what, ln), 'dominated by `if let Some(ss) = try_decaps(..)?`', body.where(ln))
     ctx.floor(n, 2, 'guarded recoveries in full_decaps (key assignment, right insertion)')
     # master secrets are used only under an activation test
     m = 0
